@@ -451,9 +451,16 @@ def run(rep, tier):
         clause_a(facts, rep)
         clause_b(facts, rep)
         clause_c(facts, rep)
+        # "parses back equal" needs the number writers to print the value they were given: the structural
+        # obligations of the writers (shared with C07/C08) are re-checked here
+        from . import c07
+        from .. import narrowing
+        c07.clause_g(facts, rep)
+        narrowing.check(facts, rep, 'E3.lossless-narrowing', ('ftoa.h',), bounds={('FormatSignificand', 'sig'): 10 ** 17}, min_sites=2)
+        narrowing.check(facts, rep, 'E3.lossless-narrowing', ('itoa.h',), min_sites=1)
     rep.trust('clang 14 front end', 'Stack::Grow(n) post-condition: at least n bytes free behind top_ (relational fact over buf_/top_/cap_, not decided here)',
               *['%s write contract: %s' % (k, v['why']) for k, v in WRITER_CONTRACT.items()])
     rep.assumptions += [
-        'decides that every unchecked push / writer call in SerializeImpl is covered by the reservation in force on every path (loops by fixpoint), error propagation exits, Dump, ToString',
+        'decides that every unchecked push / writer call in SerializeImpl is covered by the reservation in force on every path (loops by fixpoint), error propagation exits, Dump, ToString; plus the Schubfach interval parity and lossless-narrowing obligations of the number writers (shared with C07/C08)',
         'does NOT decide separator/Pop logic producing well-formed text, nor round-trip equality',
     ]
